@@ -318,7 +318,7 @@ pub fn run(cx: &mut Ctx) {
 
 fn parser_inventory(cx: &mut Ctx, facts: &Facts, rule: &str) {
     cx.rule(rule, "panic-obligation inventory of rustpython_parser from resolved MIR (every Option/Result unwrap/expect, panic!/unreachable!/unimplemented!, slice/Vec/CharWindow indexing, Vec::remove/insert/drain, String::truncate/insert, split_at, TextRange::new, TextSize add/sub, *_unchecked call, and every Overflow/BoundsCheck/Division assert; LALRPOP internals excluded on the strength of G1): every site belongs to a (function, kind) row of the reviewed site table with its discharge rule, and no function has more sites of a kind than reviewed");
-    cx.floor(rule, 60);
+    cx.floor(rule, 40);
     let Some(cf) = facts.krate("rustpython_parser") else { return cx.anchor_missing(rule, "MIR facts of rustpython_parser") };
     let inv = panic_inventory(cf, &|_| true);
     let total: usize = inv.values().sum();
@@ -1418,7 +1418,7 @@ fn fn_summaries(cx: &mut Ctx) {
 fn progress(cx: &mut Ctx) {
     let rule = "C03.P1";
     cx.rule(rule, "structural progress: in lexer.rs, soft_keywords.rs and string.rs every iteration path of every loop (to its back edge or a `continue`) contains a consuming call — next_char, a lex_*/parse_* function that consumes at least one character or fails, a pull/peek on the finite token stream, a pop of the finite indentation stack — or leaves the loop; `while let Some(..) = self.next_char()` and `while self.is_identifier_continuation() { next_char }` consume at the head; the conditional consumers are tabled with the condition under which they are used");
-    cx.floor(rule, 18);
+    cx.floor(rule, 12);
     for rel in ["parser/src/lexer.rs", "parser/src/soft_keywords.rs", "parser/src/string.rs"] {
         let Ok(src) = sm::load(&cx.repo, rel) else {
             cx.anchor_missing(rule, rel);
